@@ -1,4 +1,4 @@
-import sys; sys.path.insert(0,'/verif')
+import sys; sys.path.insert(0,"/verif")
 from pyvc.extract import Repo
 from pyvc.vc import Engine
 from pyvc.run import discharge
@@ -21,5 +21,8 @@ for r in res:
     if r.verdict!='unsat':
         bad+=1
         print(r.verdict,r.solver,'%.2f'%r.time,r.func,r.path_idx,r.ob.kind,r.ob.lineno,r.ob.note[:120])
-        open('/tmp/fail%d.smt2'%bad,'w').write(r.text)
+        open('/tmp/fail%d_%s.smt2'%(bad,r.verdict),'w').write(r.text)
 print('obligations',len(res),'not discharged',bad,'max time %.2f'%max([r.time for r in res] or [0]))
+import collections
+fails=[r for r in res if r.verdict!='unsat']
+print(collections.Counter((r.verdict, tuple(t for t in fr.paths[r.path_idx].trace if 'if@' in t)) for r in fails for fr in frs if fr.key==r.func).most_common(20))
